@@ -50,8 +50,51 @@ def texts(tier, seed):
             out.append(" ".join(t))                         # permutations
         for k in range(len(toks)):
             out.append(" ".join(toks[:k] + [rnd.choice(VOCAB)] + toks[k + 1:]))   # one token replaced
+    out += config_texts(rnd)
     out += ["", " ", "\n", "\n\n  \n", "permit " * 2000, "1 " * 3000 + "permit ip any any", "permit ip any any " + "log " * 5000, "a" * 100000,
             "ip access-list extended A\n" + " permit ip any any\n" * 3000, "remark " + "x" * 200, "0.0.0.0 " * 50, "eq " + "1 " * 5000]
+    return out
+
+
+def source_literals():
+    """the string constants of the configuration parser's own source (reserved keys, markers, keywords): a white-box dictionary for the line soups"""
+    import ast
+    from pyvc import loader
+    out = set()
+    for mod in ("config_parser", "functions"):
+        try:
+            tree = ast.parse(open(os.path.join(loader.REPO, "cisco_acl", mod + ".py")).read())
+        except OSError:
+            continue
+        for n in ast.walk(tree):
+            if isinstance(n, ast.Constant) and isinstance(n.value, str) and 0 < len(n.value) <= 24 and "\n" not in n.value and not n.value.startswith("\\"):
+                out.add(n.value.strip())
+    return sorted(x for x in out if x and " " not in x.strip() or x in ("ip access-list", "object-group network"))[:60]
+
+
+def config_texts(rnd):
+    """multi-line texts with section structure: arbitrary indentation (width, character, nesting depth), comment lines, lines taken from the parser's own literals"""
+    out = []
+    lits = source_literals()
+    heads = ["ip access-list extended A", "ip access-list A", "object-group network G", "object-group ip address G", "interface Gi1", "a", "router bgp 1"]
+    bodies = ["permit ip any any", "host 10.0.0.1", "ip access-group A in", "10.0.0.0/24", "x", "remark r", "!", "! note"]
+    for ich in (" ", "\t", "\xa0", "\u3000", " \t"):
+        for w in (1, 2, 5):
+            for h_ in heads[:5]:
+                out.append("\n".join([h_] + [ich * w + b for b in bodies[:4]]))
+                out.append("\n".join([h_, ich * w + bodies[0], ich * (w + 1) + bodies[4], ich * w + bodies[5], bodies[6], ich * w + bodies[0]]))
+    for lit in lits:
+        for h_ in heads[:2] + heads[5:6]:
+            out.append("\n".join([h_, " " + lit, "  x", " y"]))
+            out.append("\n".join([lit, " " + bodies[0]]))
+            out.append("\n".join([h_, " " + bodies[0], lit]))
+    for depth in (5, 50, 400, 3000):
+        out.append("\n".join(["a"] + [" " * i + "x" for i in range(1, depth)]))
+        out.append("\n".join(["ip access-list extended A"] + [" " * i + "permit ip any any" for i in range(1, depth)]))
+    for _ in range(300):
+        n_ = rnd.randint(2, 7)
+        out.append("\n".join(rnd.choice(["", " ", "  ", "\t", "   "]) + rnd.choice(heads + bodies + lits[:20]) for _ in range(n_)))
+    out += ["10.0.0.1 0.0.0.0", "10.0.0.0 0.0.0.0", "0.0.0.0 255.255.255.255", "1.2.3.4 255.255.255.255", "10 10.0.0.1 0.0.0.0"]
     return out
 
 
@@ -81,7 +124,12 @@ def check_text(arg):
                 fails.append(dict(key=f"bounded/{name}:endless", what=f"{name}({text[:60]!r}...) did not finish within {LIMIT_S} CPU seconds", inputs=dict(cls=name, text=text[:300], platform=platform)))
                 continue
             except BaseException as ex:
-                fails.append(dict(key=f"bounded/{name}:{type(ex).__name__}", what=f"{name}({text[:80]!r}) raised {type(ex).__name__}: {str(ex)[:120]}",
+                shape = ""
+                if isinstance(ex, AttributeError) and any(l.strip() == "_config_" for l in text.splitlines()):
+                    shape = ":line-equal-to-reserved-key"          # a configuration line whose text is the parser's reserved key `_config_`
+                elif isinstance(ex, RecursionError) and max((len(l) - len(l.lstrip()) for l in text.splitlines()), default=0) > 300:
+                    shape = ":indentation-nested-deeper-than-the-recursion-limit"
+                fails.append(dict(key=f"bounded/{name}:{type(ex).__name__}" + shape, what=f"{name}({text[:80]!r}) raised {type(ex).__name__}: {str(ex)[:120]}",
                                   inputs=dict(cls=name, text=text[:300], platform=platform),
                                   cmd=("import sys, cisco_acl\n"
                                        f"kw = {kw!r}\ntry:\n    cisco_acl.{name}({text[:2000]!r}, **kw); sys.exit(0)\nexcept (ValueError, TypeError):\n    sys.exit(0)\n"
@@ -96,6 +144,8 @@ def check_text(arg):
                     shape = ""
                     if not text.strip():
                         shape = ":empty-input"
+                    elif name == "AddressAg" and platform == "ios" and str(getattr(obj, "line", "")).split()[-2:] == ["0.0.0.0", "0.0.0.0"]:
+                        shape = ":ios-member-with-mask-0"               # a subnet mask 0.0.0.0 is accepted, the rendered 0.0.0.0 0.0.0.0 is refused
                     elif name == "Ace" and getattr(obj, "type", "") == "standard" and \
                             any(t not in ("log", "log-input") for t in str(getattr(getattr(obj, "option", None), "line", "")).split()):
                         # a standard entry that carries option tokens other than log keywords (its text then reads as an extended entry)
@@ -109,14 +159,48 @@ def check_text(arg):
     return fails, n
 
 
+def check_indent_invariance(arg):
+    """whole-configuration functions: the indentation (width, character) does not change what is returned"""
+    import cisco_acl
+    platform, ich, w = arg
+    heads = {"ios": ["ip access-list extended A", "object-group network G", "interface Gi1"], "nxos": ["ip access-list A", "object-group ip address G", "interface Gi1"]}[platform]
+    bodies = {"ios": [["permit ip any any", "remark r", "deny tcp any any eq 80"], ["host 10.0.0.1", "10.0.0.0 255.255.255.0"], ["ip access-group A in"]],
+              "nxos": [["permit ip any any", "remark r", "deny tcp any any eq 80"], ["host 10.0.0.1", "10.0.0.0/24"], ["ip access-group A in"]]}[platform]
+
+    def cfg(pad):
+        return "\n".join(l for h_, b in zip(heads, bodies) for l in [h_] + [pad + x for x in b]) + "\n"
+
+    def view(text):
+        a = cisco_acl.acls(text, platform=platform)
+        g = cisco_acl.addrgroups(text, platform=platform)
+        return ([(x.name, [o.line for o in x.items], x.input, x.output) for x in a], [(x.name, [o.line for o in x.items]) for x in g])
+    fails = []
+    try:
+        want, got = view(cfg(" ")), view(cfg(ich * w))
+        if got != want:
+            fails.append(dict(key="bounded/config:indentation-changes-result", what=f"indentation {ich * w!r} instead of one space changes the result: {got} vs {want}",
+                              inputs=dict(platform=platform, indent=ich * w),
+                              cmd=("import sys; sys.path.insert(0, 'props'); import C20\n"
+                                   f"fails, _ = C20.check_indent_invariance({arg!r})\nprint([f['what'] for f in fails]); sys.exit(1 if fails else 0)\n")))
+    except (ValueError, TypeError) as ex:
+        fails.append(dict(key="bounded/config:indentation-changes-result", what=f"indentation {ich * w!r}: {type(ex).__name__}: {ex}", inputs=dict(platform=platform, indent=ich * w)))
+    return fails, 1
+
+
 def main(chk):
     # deductive part: safety and termination obligations of the kernels that read arbitrary text
     chk.prove(["c_lines", "c_port", "c_wildcard"], serve=["C20"])
-    for q, ok in C12.depth_obligations(["cisco_acl.helpers.is_line_for_acl", "cisco_acl.config_parser.ConfigParser._parse_dic"]):
+    for q, ok in C12.depth_obligations(["cisco_acl.helpers.is_line_for_acl", "cisco_acl.config_parser.ConfigParser._parse_dic",
+                                        "cisco_acl.config_parser.ConfigParser._parse_mdic", "cisco_acl.config_parser.ConfigParser._get_indented_dic"]):
         ob = Obligation(oid=f"{q}/depth", kind="depth", hyps=(), goal=z3.BoolVal(ok), target=q, note="recursion without a depth bound" if not ok else "no recursion")
         ob.result, ob.solver = ("PROVED" if ok else "REFUTED"), "syntactic recursion analysis"
         chk.obligations.append(ob)
-        if not ok:
+        if not ok and q.endswith("._get_indented_dic"):
+            cmd = ("import sys, cisco_acl\ntext = '\\n'.join(['a'] + [' ' * i + 'x' for i in range(1, 3000)])\n"
+                   "try:\n    cisco_acl.acls(text); sys.exit(0)\nexcept (ValueError, TypeError):\n    sys.exit(0)\n"
+                   "except RecursionError as ex:\n    print('RecursionError', ex); sys.exit(1)\n")
+            chk.finding(ob.oid, "ConfigParser._get_indented_dic calls itself once per indentation level: no bound on the depth", key="config_parser.ConfigParser._get_indented_dic/depth", cmd=cmd)
+        elif not ok:
             good, obs = C12.replay_depth()
             if not good:
                 chk.finding(ob.oid, "RecursionError on a long line: " + obs, observed=obs, key="helpers.is_line_for_acl/depth",
@@ -143,6 +227,16 @@ def main(chk):
                     sum(d for _, d in res), len(ts), f"{len(ts)} texts (all token soups of <= 2 tokens over a {len(VOCAB)}-token vocabulary, seeded soups of 3..7 tokens, "
                     "truncations / permutations / one-token replacements of 15 valid texts, empty and whitespace, very long inputs) x 14 entry points x 2 platforms",
                     viol, time.time() - t0, ts[100:103], exhaustive=False)
+    t0 = time.time()
+    icases = [(p, ich, w) for p in ("ios", "nxos") for ich in (" ", "\t", "\xa0", "\u3000", " \t", "\x1f") for w in (1, 2, 5)]
+    res = pmap(check_indent_invariance, icases)
+    viol = 0
+    for fails, _ in res:
+        for f in fails:
+            viol += 1
+            chk.finding(f["key"], f["what"], inputs=f["inputs"], cmd=f.get("cmd"), key=f["key"])
+    chk.add_bounded("acls()/addrgroups(): the same configuration with another indentation (width, whitespace character) gives the same result", len(icases), len(icases),
+                    "6 indentation strings x 3 widths x 2 platforms", viol, time.time() - t0, [list(icases[4])], exhaustive=True)
     chk.assumptions += ["regular-expression run time is only covered by the CPU-time limit of the bounded run (30 s per call; the slowest generated input needs about 2 s)"]
     return chk.finish("other", "Deductive: safety (index / None / int()) and termination obligations of the text kernels under contract (is_line_for_acl: loop "
                       "with decreasing length, no recursion). Bounded (labelled): exception class, wall-clock limit and re-acceptance on generated texts.",
